@@ -105,9 +105,11 @@ func (e *Effects) call(fn *ssa.Function, s *fnState, sum *Summary, site ssa.Call
 		}
 		a := args[idx]
 		all := strset{}
-		for j, o := range args {
-			if j != idx && isRefType(o.Type()) {
-				all.addAll(s.roots[o])
+		if !ct.copies {
+			for j, o := range args {
+				if j != idx && isRefType(o.Type()) {
+					all.addAll(s.roots[o])
+				}
 			}
 		}
 		s.storeCells(a, all, nil, nil)
